@@ -191,3 +191,30 @@ func H_C08_reenqueue() {
 	verifrt.Assert(err == nil && len(v) == 1 && int32(v[0]) == o.version.Load(), "the committed contents are not those of the object at its last Enqueue (a re-enqueue during the write was dropped)")
 	verifrt.Assert(o.dones == o.writes && o.doneAfter, "BatchWriteDone does not follow every committed BatchWrite")
 }
+
+// H_C08_flush: Flush while a backlog of at least one batch is queued (batch size 1 or 2, two or three objects):
+// every object is passed to BatchWrite, committed and told BatchWriteDone by the time StopBatchWriter returns.
+//
+//verif:h prop=C08 preempt=1/2 cover=done p.maxfires=1/1 runs=30000000 timeout=280/900 steps=400000
+func H_C08_flush() {
+	store := NewMapDB()
+	batchSize := 1 + verifrt.Choose("batchSize", 2)
+	bw := kvstore.NewBatchedWriter(store, kvstore.WithQueueSize(3), kvstore.WithBatchSize(batchSize), kvstore.WithBatchTimeout(time.Second))
+	n := 2 + verifrt.Choose("objects", 2)
+	var objs []*c08Obj
+	for k := 0; k < n; k++ {
+		o := &c08Obj{id: byte(k + 1), store: store, doneAfter: true}
+		o.version.Add(1)
+		objs = append(objs, o)
+		bw.Enqueue(o)
+	}
+	verifrt.MustFinish()
+	bw.Flush()
+	bw.StopBatchWriter()
+	verifrt.Cover("done")
+	for _, o := range objs {
+		v, err := store.Get([]byte{o.id})
+		verifrt.Assert(o.writes >= 1 && o.dones == o.writes && o.doneAfter, "an object enqueued before Flush and Stop was not written completely (BatchWrite, commit, BatchWriteDone)")
+		verifrt.Assert(err == nil && len(v) == 1 && int32(v[0]) == o.version.Load(), "an object enqueued before Flush and Stop is not in the store")
+	}
+}
